@@ -1,5 +1,6 @@
 import SeqVerif.Base.Proto
 import SeqVerif.Model.SealOps
+import SeqVerif.Model.BufWriter
 import SeqVerif.Extracted.C08
 /-!
 Driver for C08 (and the loader part of C15).  Requests:
@@ -11,6 +12,10 @@ Driver for C08 (and the loader part of C15).  Requests:
   `crash <facts> <skip> <keep> <plan> <oi> <os> <fs0>` -> `ok <presence>:<served>;...` (one entry per prefix of the trace;
                                                      presence = `a`bsent / `p`resent per file)
   `crashfull ...`                                 -> the same with contents instead of presence
+  `bwriter <C> <cmds> <answers>`                  -> `ok <results> out=<hex> buf=<len>`   (SV.BufWriter.exec)
+       cmds = `,`-separated `w<len>` (a Write of the next <len> bytes of the sequence 0,1,2,.. mod 251) | `f` (Flush);
+       answers of the downstream writer = `,`-separated `k` (ok) | `e<k>` (error / short write after k bytes);
+       results = per command `<n>:<1|0>` for a Write, `<1|0>` for a Flush
 
 `<fs>` = nine characters, one per suffix in the order docs docs.del sdocs _sdocs sdocs.del index _index index.del meta,
 each `a`bsent `e`mpty `t`orn `h`oled `f`ull.  `<facts>` = `src` (the facts extracted from /repo) or four 0/1 for the
@@ -80,6 +85,36 @@ def statesAlong : List Op → St → List St
   | [], st => [st]
   | o :: r, st => st :: statesAlong r (step o st)
 
+def bwCmds (toks : List String) : Nat → Option (List SV.BufWriter.Cmd)
+  | _ => go toks 0
+where
+  go : List String → Nat → Option (List SV.BufWriter.Cmd)
+    | [], _ => some []
+    | t :: r, pos =>
+      if t = "f" then (go r pos).map (SV.BufWriter.Cmd.f :: ·)
+      else match t.toList with
+        | 'w' :: ds => do
+          let n ← (String.ofList ds).toNat?
+          let rest ← go r (pos + n)
+          pure (SV.BufWriter.Cmd.w ((List.range n).map fun i => (pos + i) % 251) :: rest)
+        | _ => none
+
+def bwAnswers (toks : List String) : Option (List (Option Nat)) :=
+  toks.mapM fun t =>
+    if t = "k" then some none
+    else match t.toList with
+      | 'e' :: ds => (String.ofList ds).toNat?.map some
+      | _ => none
+
+def bwRun (C : Nat) : List SV.BufWriter.Cmd → SV.BufWriter.St → List String → List String × SV.BufWriter.St
+  | [], s, acc => (acc.reverse, s)
+  | .w b :: r, s, acc =>
+    let x := SV.BufWriter.write C b s
+    bwRun C r x.2 (s!"{x.1.1}:{fmtBool x.1.2}" :: acc)
+  | .f :: r, s, acc =>
+    let x := SV.BufWriter.flush s
+    bwRun C r x.2 (fmtBool x.1 :: acc)
+
 def step (line : String) : String :=
   match fields line with
   | ["startup", fs] =>
@@ -88,6 +123,12 @@ def step (line : String) : String :=
       let r := startup SV.Extracted.C08.orphanFatal fs
       s!"ok {fmtOutcome (classify fs)} {fmtLoaded r.1} left={fmtFs r.2} served={fmtServed (served SV.Extracted.C08.orphanFatal fs)}"
     | none => "bad-op"
+  | ["bwriter", c, cmds, answers] =>
+    match c.toNat?, bwCmds (splitList cmds) 0, bwAnswers (splitList answers) with
+    | some c, some cmds, some ans =>
+      let r := bwRun c cmds { oracle := ans } []
+      s!"ok {fmtList id r.1} out={fmtHex r.2.out} buf={r.2.buf.length}"
+    | _, _, _ => "bad-op"
   | ["load", fs] =>
     match fs? fs with
     | some fs => let r := startup SV.Extracted.C08.orphanFatal fs; s!"ok {fmtLoaded r.1} left={fmtFs r.2}"
